@@ -23,7 +23,7 @@ func TestMain(m *testing.M) {
 }
 
 func TestProp(t *testing.T) {
-	rapid.Check(t, func(t *rapid.T) { refprop.Run(t, true) })
+	rapid.Check(t, prop)
 }
 
 func TestReplay(t *testing.T) {
@@ -34,3 +34,8 @@ func TestReplay(t *testing.T) {
 		return refprop.CheckMirror(c)
 	})
 }
+
+func prop(t *rapid.T) { refprop.Run(t, true) }
+
+// FuzzProp lets Go's coverage-guided mutator drive the structured generators (thorough tier).
+func FuzzProp(f *testing.F) { f.Fuzz(rapid.MakeFuzz(prop)) }
